@@ -185,7 +185,9 @@ func (state *State) NewSocket(src, dst net.Addr) *Socket {
 		laddr: dst,
 		raddr: src,
 
-		rchan: make(chan interface{}),
+		// holds one pending wake-up: a flush that finds the reader between
+		// its look at the buffer and its select must not be lost
+		rchan: make(chan interface{}, 1),
 
 		m: &sync.Mutex{},
 
